@@ -253,7 +253,12 @@ def overwide_history(rng):
     if rng.random() < 0.5:
         d.append(K(22, 0, [1, big()]))          # Components()[0].SetPTSOffset on the fresh descriptor
         d.append(K(22, 0, [0, rng.randrange(256)]))
-    ops = [K(5, [2, cops]), K(1, big()), K(0, rng.choice([4096, 0xFFFF, 0x1ABC])), K(6, [d])]
+    ops = [K(5, [2, cops])]
+    if rng.random() < 0.6:
+        ops.append(K(2, big()))                 # SCTE35.SetPTS with an over-wide argument (truncated since a397833)
+    if rng.random() < 0.6:
+        ops.append(K(1, big()))
+    ops += [K(0, rng.choice([4096, 0xFFFF, 0x1ABC])), K(6, [d])]
     if rng.random() < 0.5:
         ops.append(K(8, K(6, big())))           # CommandInfo().SetDuration again
     if rng.random() < 0.5:
@@ -556,8 +561,7 @@ LEVEL_TEXT = ("Proof: Properties/C09.v states over a Gallina model of the setter
               "sections, comparing bytes, all getters and Data() before/after.")
 LEVEL_NOTE = "Trusted: as C08, plus the by-value rendering of the pointer-based setter API (Model/ScteEnc.v)."
 TECHNIQUE = "Coq proof (encoder = serialiser, parser inverts serialiser, fold_left invariants) + model/implementation correspondence on setter histories"
-PARTIAL = ("residual finding, refuted with a witness in Properties/C09.v: SCTE35.SetPTS keeps an over-wide argument in PTS() "
-           "(C09_set_pts_overwide_refuted; typed_sig_op bounds that argument); limits stated in the theorems: `fits` (8-bit counts and "
+PARTIAL = ("no clause is partial or refuted; limits stated in the theorems: `fits` (8-bit counts and "
            "lengths, section_length < 1024), no stuffing for byte identity; CRC stated against the transliterated ComputeCRC "
            "(Properties/C13tie.v identifies it with CRC-32/MPEG-2); Data() aliasing is only observed in goexec")
 
